@@ -242,7 +242,10 @@ class DeviceSim(object):
         if per_conn:
             self.maxdata = int(per_conn[min(self.connects, len(per_conn)) - 1])
         banner = self.cfg.get("banner", b"device::ro.product.name=sim;\0")
-        self.control.append((self._next_seq(), Packet(A_CNXN, wire.A_VERSION, self.maxdata, banner)))
+        self.control.append((self._next_seq(), Packet(A_CNXN, int(self.cfg.get("version", wire.A_VERSION)), self.maxdata, banner)))
+        # traffic of an earlier, broken session that was still in the pipe (USB-like links) arrives right behind the CNXN
+        for (cmd, a0, a1, data) in self.cfg.get("after_cnxn") or ():
+            self.control.append((self._next_seq(), Packet(cmd, a0, a1, data)))
 
     def _strays(self):
         """Stray packets in front of an answer (C05): stale traffic of an earlier session."""
